@@ -1,8 +1,11 @@
 from pyvc.table_engine import TableEngine
 ID = "C07"
 LEVEL = "other"
-CONTRACT_MODULES = ["contracts.table_cache", "contracts.table_setitem"]
-FUNCTIONS = ["Table._make_cache", "Table._get_cache", "Table._get_row_cache", "Table._get_row_cache_raise", "Table.__setitem__", "Table._append_row", "Table._concatenate_table", "Table.__delitem__", "Table.pop"]
+CONTRACT_MODULES = ["contracts.table_cache", "contracts.table_setitem", "contracts.table_desig"]
+FUNCTIONS = ["Table._make_cache", "Table._get_cache", "Table._get_row_cache", "Table._get_row_cache_raise", "Table.__setitem__", "Table._append_row", "Table._concatenate_table", "Table.__delitem__", "Table.pop",
+             # which row a designator (position / text / (name, count[, offset])) resolves to, and the entry points that forward to it
+             "Table._get_row_index@int", "Table._get_row_index@str", "Table._get_row_index@tuple2", "Table._get_row_index@tuple3", "Table._get_row_index@other",
+             "Table.__floordiv__@forwards", "_RowView.get_index@forwards"]
 RAC = "rac/c07.py"
 RAC_BUDGET = {"quick": 60, "thorough": 900}
 RAC_MIN = {"quick": 8400, "thorough": 8400}      # fewer run-time evaluations than this = the harness skipped its work: checker broken, not "held"
@@ -17,7 +20,9 @@ TRUSTED = ["mutators: a store into column k yields data whose other columns are 
            "fields only, may raise' (implied by the proved contracts for _get_cache and _get_row_cache_raise)",
            "numpy-lite model: _data[k] is a read-only column view inside the verified cache functions; dict keyed by 2-tuples as an "
            "injective pair function; dict.items() as an arbitrary enumeration whose values are read at loop entry; enumerate",
-           "numpy itself (array stores, object arrays), Python string methods", "z3 / cvc5"]
+           "numpy itself (array stores, object arrays), Python string methods", "z3 / cvc5",
+           "designators: isinstance(row, int / str / tuple) as uninterpreted, mutually exclusive-by-precondition predicates; a tuple designator is a pair or a "
+           "triple whose count / offset are ints; Table._split_name_count_offset is assumed to return (name, count or None, offset) of the text (run-time checked)"]
 ASSUMPTIONS = [
     "attribute-style assignment is API for the documented fields only: key not in {_data, _index_cache, _count_cache, _names_cache} "
     "(precondition api-key of __setitem__); __delitem__/pop: not the index column itself",
@@ -35,10 +40,11 @@ ASSUMPTIONS = [
 BOUNDED = [
     "WHICH cell a write table[col, row] = v reaches (row-designator dispatch in __setitem__): run-time only "
     "(all update sequences of length <=2 on all index columns of length <=3/4, cache warmed before each update)",
-    "_split_name_count_offset (string parsing), __getitem__/__setitem__ row-designator dispatch, __floordiv__, "
-    "rows.get_index, cols.get_index_unique: run-time only (all designator spellings, reads and writes)",
+    "_split_name_count_offset (string parsing: what name / count / offset a TEXT denotes), __getitem__/__setitem__ row-designator dispatch, "
+    "cols.get_index_unique: run-time only (all designator spellings, reads and writes); t // row and rows.get_index(row) are proved to resolve "
+    "the parsed / given (name, count, offset) against the current index column, and checked at run time as well",
 ]
-EXPLANATION = ("proved for every index column, name, count and offset: the cache built by _make_cache is complete, sound and "
+EXPLANATION = ("proved for every index column, name, count and offset: a designator given as a position, a text, a pair (name, count) or a triple (name, count, offset) is resolved by Table._get_row_index -- and hence by t // row and t.rows.get_index(row), which forward to it unchanged -- to the position of the count-th occurrence of the name on the CURRENT index column plus the offset, KeyError exactly when there is none (for a text: of the triple _split_name_count_offset makes of it, assumed); the cache built by _make_cache is complete, sound and "
                "count-exact w.r.t. a scan (prefix-count specification function), _get_cache establishes/keeps CacheOK, "
                "_get_row_cache returns None iff no row has the name with that occurrence number (negative counts from the "
                "last) and otherwise such a row's position plus the offset, _get_row_cache_raise raises KeyError exactly "
